@@ -263,11 +263,13 @@ const (
 	outCancelNil                  // the context is cancelled, return (nil, ctx.Err()) without finishing
 	outFailNil                    // return (nil, err)
 	outFailState                  // return (state, err)
+	outFailDeadline               // return (nil, error wrapping context.DeadlineExceeded) while the run's context is ALIVE (an internal timeout)
+	outFailCanceled               // one unit of work, return (state, error wrapping context.Canceled) while the run's context is ALIVE (an internal, derived context)
 	nOutcomes
 )
 
 func (o outcome) String() string {
-	return [...]string{"finish", "partial(state,nil)", "cancel(state,ctxerr)", "cancel(nil,ctxerr)", "fail(nil,err)", "fail(state,err)"}[o]
+	return [...]string{"finish", "partial(state,nil)", "cancel(state,ctxerr)", "cancel(nil,ctxerr)", "fail(nil,err)", "fail(state,err)", "fail(nil,internal_deadline)", "fail(state,internal_cancel)"}[o]
 }
 
 // toy is a harness-defined migration: `units` marker keys have to be written, progress is the
@@ -357,6 +359,13 @@ func (t *toy) Migrate(ctx context.Context, d db.KeyValueStore, _ *networks.Netwo
 		return nil, errToy
 	case outFailState:
 		return t.state(), errToy
+	case outFailDeadline:
+		return nil, fmt.Errorf("toy %d: internal step timed out: %w", t.id, context.DeadlineExceeded)
+	case outFailCanceled:
+		if err := t.unit(d); err != nil {
+			return t.state(), err
+		}
+		return t.state(), fmt.Errorf("toy %d: derived context ended: %w", t.id, context.Canceled)
 	}
 	for t.progress < t.units {
 		if ctx.Err() != nil { // cancelled from outside between units
